@@ -7,7 +7,6 @@ use nostr::EventId;
 #[cfg(test)]
 use nostr::{Kind, Tags, Timestamp, UnsignedEvent};
 
-use mdk_storage_traits::groups::GroupStorage;
 use mdk_storage_traits::messages::MessageStorage;
 use mdk_storage_traits::messages::error::MessageError;
 use mdk_storage_traits::messages::types::*;
@@ -16,27 +15,18 @@ use crate::MdkMemoryStorage;
 
 impl MessageStorage for MdkMemoryStorage {
     fn save_message(&self, message: Message) -> Result<(), MessageError> {
-        // Verify that the group exists before saving the message
-        match self.find_group_by_mls_group_id(&message.mls_group_id) {
-            Ok(Some(_)) => {
-                // Group exists, proceed with saving
-            }
-            Ok(None) => {
-                return Err(MessageError::InvalidParameters(
-                    "Group not found".to_string(),
-                ));
-            }
-            Err(e) => {
-                return Err(MessageError::InvalidParameters(format!(
-                    "Failed to verify group existence: {}",
-                    e
-                )));
-            }
-        }
-
         // Acquire lock on inner storage
         let mut guard = self.inner.write();
         let inner = &mut *guard;
+
+        // Verify that the group exists while holding the write lock, so that a concurrent
+        // rollback cannot remove the group between the check and the insertion
+        if inner.groups_cache.peek(&message.mls_group_id).is_none() {
+            return Err(MessageError::InvalidParameters(
+                "Group not found".to_string(),
+            ));
+        }
+
         let cache = &mut inner.messages_cache;
         let group_cache = &mut inner.messages_by_group_cache;
 
